@@ -3,6 +3,7 @@ import MorfuseModel.Sched.MachineHostProps
 import MorfuseModel.Sched.MachineInstHost
 import MorfuseModel.Sched.MachineInstReset
 import MorfuseModel.Sched.MachineIdleHost
+import MorfuseModel.Sched.MachineLifeTraceHost
 /-!
 # C13 — nothing outlives its script: idle means empty, reset means clean
 
@@ -394,5 +395,109 @@ theorem C13_machine_recompile_kills_old_instances {s : State} (h : Reachable s) 
 example : (hostReset (runOps {} demoQuiesce)).outOfFuel = false ∧ (hostReset (runOps {} demoQuiesce)).insts = [] ∧
     (hostReset (runOps {} demoQuiesce)).threads = [] := by
   decide +kernel
+
+/-! ## Trace level: every thread and every script instance is destroyed exactly once
+
+The **ghost ledgers** of creations and destructions (`reachable_life_history`, from `llAll`: every function of the
+machine changes the list of thread records only by appending a record with the id `nextTid` (`new`) or removing the
+record of an id that is present (`del t`: the end of `~ScriptThread` once the VM is freed, or `ScriptVM::Execute`'s
+epilogue freeing a destroyed VM together with the record), and the instance list only by listing the id `nextInst`
+or unlinking a listed id).  Existentially quantified histories, `PoolLedger.lean` for what every such history
+satisfies; no fuel condition for the ledger facts.  `Reachable` = without `save`/`load`. -/
+
+/-- the thread ledger and the instance ledger of a state -/
+def IsLifeLedger (s : State) (opsT opsI : List POp) : Prop :=
+  pRun pool0T opsT = some (absT s) ∧ pRun pool0I opsI = some (absI s)
+
+theorem C13_trace_ledger_exists {s : State} (h : Reachable s) : ∃ opsT opsI, IsLifeLedger s opsT opsI := by
+  obtain ⟨⟨o1, r1⟩, ⟨o2, r2⟩⟩ := reachable_life_history h
+  exact ⟨o1, o2, r1, r2⟩
+
+/-- **Never reused, destroyed at most once, trace level.**  In the ledgers of any reachable state: the thread ids
+    (instance ids) handed out are pairwise distinct and fresh; no id has two destruction records; and the records
+    (listed instances) present now are exactly the created ones without a destruction record. -/
+theorem C13_trace_destroyed_at_most_once {s : State} (h : Reachable s) :
+    ∃ opsT opsI, IsLifeLedger s opsT opsI ∧
+      (created pool0T opsT).Nodup ∧ (created pool0I opsI).Nodup ∧
+      (∀ t, opsT.count (POp.del t) ≤ 1) ∧ (∀ i, opsI.count (POp.del i) ≤ 1) ∧
+      (∀ t, (∃ th, s.th? t = some th) ↔ t ∈ created pool0T opsT ∧ POp.del t ∉ opsT) ∧
+      (∀ i, hasInst s i = true ↔ i ∈ created pool0I opsI ∧ POp.del i ∉ opsI) := by
+  obtain ⟨opsT, opsI, hT, hI⟩ := C13_trace_ledger_exists h
+  refine ⟨opsT, opsI, ⟨hT, hI⟩, created_nodup _ _, created_nodup _ _,
+    fun t => del_count_le_one opsT t pool0T_good hT, fun i => del_count_le_one opsI i pool0I_good hI, ?_, ?_⟩
+  · intro t
+    have := mem_after opsT t pool0T_good hT
+    have hm : t ∈ (absT s).ids ↔ ∃ th, s.th? t = some th := by
+      unfold absT
+      simp only [List.mem_map]
+      constructor
+      · rintro ⟨e, he, rfl⟩
+        cases hf : s.th? e.1 with
+        | some th => exact ⟨th, rfl⟩
+        | none =>
+          exfalso
+          rw [State.th?_eq] at hf
+          exact (thFind_none_iff.1 hf) (List.mem_map.2 ⟨e, he, rfl⟩)
+      · rintro ⟨th, hf⟩
+        rw [State.th?_eq] at hf
+        exact ⟨(t, th), thFind_some_mem hf, rfl⟩
+    rw [← hm, this]
+    simp [pool0T]
+  · intro i
+    have := mem_after opsI i pool0I_good hI
+    have hm : i ∈ (absI s).ids ↔ hasInst s i = true := by
+      unfold absI hasInst
+      simp only [List.mem_reverse, List.mem_map, List.any_eq_true, beq_iff_eq]
+    rw [← hm, this]
+    simp [pool0I]
+
+/-- **All destroyed exactly once, trace level.**  After `director.Reset()` in any reachable state (unless out of
+    fuel), and in any reachable state without a live thread, every thread id and every instance id ever created
+    in this context has exactly one destruction record in the ledger. -/
+theorem C13_trace_destroyed_exactly_once {s : State} (h : Reachable s) :
+    ((hostReset s).outOfFuel = true ∨
+      ∃ opsT opsI, IsLifeLedger (hostReset s) opsT opsI ∧
+        (∀ t ∈ created pool0T opsT, opsT.count (POp.del t) = 1) ∧
+        (∀ i ∈ created pool0I opsI, opsI.count (POp.del i) = 1)) ∧
+    (s.outOfFuel = true ∨ ((∀ t th, s.th? t = some th → th.dead = true) →
+      ∃ opsT opsI, IsLifeLedger s opsT opsI ∧
+        (∀ t ∈ created pool0T opsT, opsT.count (POp.del t) = 1) ∧
+        (∀ i ∈ created pool0I opsI, opsI.count (POp.del i) = 1))) := by
+  have key : ∀ {S : State}, Reachable S → S.threads = [] → S.insts = [] →
+      ∃ opsT opsI, IsLifeLedger S opsT opsI ∧
+        (∀ t ∈ created pool0T opsT, opsT.count (POp.del t) = 1) ∧
+        (∀ i ∈ created pool0I opsI, opsI.count (POp.del i) = 1) := by
+    intro S hS ht hi
+    obtain ⟨opsT, opsI, hT, hI⟩ := C13_trace_ledger_exists hS
+    refine ⟨opsT, opsI, ⟨hT, hI⟩, ?_, ?_⟩
+    · intro t hc
+      exact all_freed_exactly_once pool0T_good hT (by unfold absT; rw [ht]; rfl) t (Or.inr hc)
+    · intro i hc
+      exact all_freed_exactly_once pool0I_good hI (by unfold absI; rw [hi]; rfl) i (Or.inr hc)
+  constructor
+  · have hr : Reachable (HostOp.apply s .resetDirector) := .step .resetDirector h trivial
+    rcases C13_machine_reset_clean h with ho | ⟨p0, p1, _⟩
+    · exact Or.inl ho
+    · exact Or.inr (key hr p0 p1)
+  · rcases C13_machine_all_idle_between_ops h with ho | hidle
+    · exact Or.inl ho
+    · rcases C13_machine_quiescent_means_idle h with ho | hq
+      · exact Or.inl ho
+      · right
+        intro hdead
+        have hth : s.threads = [] := by
+          apply threads_nil_of_none
+          intro t
+          cases hf : thFind s.threads t with
+          | none => rfl
+          | some th =>
+            have h1 := (hidle t th hf).2.2
+            rw [hdead t th hf] at h1; cases h1
+        exact key h hth (hq hdead).2.1
+
+/-! ### non-vacuity, trace level: the ledgers of the two-thread demo, suspended and after its last frame -/
+example : pRun pool0T [.new, .new] = some (absT (runOps {} demoQuiesce)) ∧
+    pRun pool0T [.new, .new, .del 100, .del 101] = some (absT (runOps {} (demoQuiesce ++ [.step 5]))) ∧
+    pRun pool0I [.new, .del 1] = some (absI (runOps {} (demoQuiesce ++ [.step 5]))) := by decide +kernel
 
 end Morfuse.Sched
